@@ -10,6 +10,7 @@ Conservative by design: if we can't prove it's safe, ask for confirmation.
 from __future__ import annotations
 
 import ast
+import re
 from pathlib import Path
 from typing import NamedTuple
 
@@ -507,6 +508,14 @@ class SafetyAnalyzer(ast.NodeVisitor):
             for alias in node.names:
                 if alias.name in DANGEROUS_ATTRS or alias.name == "*":
                     self._add(node, "import", f"dangerous name: {alias.name}")
+                elif (
+                    alias.name.lstrip("_") in DANGEROUS_MODULES
+                    or alias.name in self.MODULE_ALIAS_ATTRS
+                ):
+                    # from random import _os
+                    self._add(
+                        node, "import", f"dangerous module via import: {alias.name}"
+                    )
 
         self.generic_visit(node)
 
@@ -664,6 +673,9 @@ def analyze_python_source(source: str, allow_print: bool = True) -> list[Violati
     return analyzer.violations
 
 
+_CODING_COOKIE = re.compile(r"^[ \t\f]*#.*?coding[:=][ \t]*([-\w.]+)")
+
+
 def analyze_python_file(path: Path) -> tuple[bool, str]:
     """
     Analyze a Python file for safety.
@@ -694,12 +706,47 @@ def analyze_python_file(path: Path) -> tuple[bool, str]:
     except (OSError, UnicodeDecodeError) as e:
         return False, f"cannot read file: {e}"
 
+    # PEP 263: the interpreter decodes the file as its coding cookie says, not as UTF-8
+    for line in source.split("\n")[:2]:
+        m = _CODING_COOKIE.match(line)
+        if m and m.group(1).lower().replace("_", "-") not in (
+            "utf-8",
+            "utf8",
+            "ascii",
+            "us-ascii",
+        ):
+            return False, f"source encoding {m.group(1)} (analysed as UTF-8)"
+
     violations = analyze_python_source(source)
 
     if violations:
         # Return first violation as reason
         v = violations[0]
         return False, f"{v.kind}: {v.detail} (line {v.line})"
+
+    # The script's directory comes first on sys.path: a file there named like an
+    # imported module is what gets imported
+    try:
+        tree = ast.parse(source)
+    except SyntaxError:
+        tree = None
+    if tree is not None:
+        for node in ast.walk(tree):
+            names = []
+            if isinstance(node, ast.Import):
+                names = [a.name for a in node.names]
+            elif isinstance(node, ast.ImportFrom) and node.module:
+                names = [node.module]
+            for name in names:
+                root = name.split(".")[0]
+                try:
+                    shadowed = (path.parent / f"{root}.py").exists() or (
+                        path.parent / root
+                    ).is_dir()
+                except OSError:
+                    shadowed = True
+                if shadowed:
+                    return False, f"local module shadows import: {root}"
 
     return True, "static analysis passed"
 
@@ -729,6 +776,25 @@ SAFE_FLAGS = frozenset(
 )
 
 
+def _scan_cluster(token: str) -> str:
+    """What a cluster of short options (-BW, -Bc, -Ic'code', -Wd) does besides setting flags.
+
+    Returns "plain", "takes-next" (ends in W or X: the next word is its value),
+    "code" (contains c: the rest, or the next word, is the program) or "module".
+    """
+    if not token.startswith("-") or token.startswith("--") or len(token) < 2:
+        return "plain"
+    for k in range(1, len(token)):
+        ch = token[k]
+        if ch in "WX":
+            return "takes-next" if k == len(token) - 1 else "plain"
+        if ch == "c":
+            return "code"
+        if ch == "m":
+            return "module"
+    return "plain"
+
+
 def _find_script_path(tokens: list[str], cwd: Path) -> tuple[Path | None, int]:
     """
     Find the script path in Python command tokens.
@@ -749,6 +815,14 @@ def _find_script_path(tokens: list[str], cwd: Path) -> tuple[Path | None, int]:
 
         # Flag with argument
         if token in FLAGS_WITH_ARG:
+            i += 2
+            continue
+
+        # Clusters: -BW VALUE, -Bc CODE, -Bm MODULE
+        kind = _scan_cluster(token)
+        if kind in ("code", "module"):
+            return None, -1
+        if kind == "takes-next":
             i += 2
             continue
 
@@ -815,6 +889,18 @@ def _split_interpreter_options(
             module = tokens[i + 1] if i + 1 < len(tokens) else None
             return opts + ["-m"], module, tokens[i + 2 :]
         if token in FLAGS_WITH_ARG:
+            opts.append(token)
+            i += 2
+            continue
+        kind = _scan_cluster(token)
+        if kind == "code":
+            # -Bc CODE, -c'CODE': inline code
+            return opts + ["-c"], None, tokens[i + 2 :]
+        if kind == "module":
+            attached = token[token.index("m") + 1 :]
+            module = attached or (tokens[i + 1] if i + 1 < len(tokens) else None)
+            return opts + ["-m"], module, tokens[i + (1 if attached else 2) :]
+        if kind == "takes-next":
             opts.append(token)
             i += 2
             continue
